@@ -522,7 +522,14 @@ func caseC17Settings(t TB, prog *Program) {
 				case e.cfg.Async != nil && nc.Async != nil && *e.cfg.Async != *nc.Async:
 					e.flag("switch-async-other-numbers")
 				}
-				if err := e.db.Create(&Doc{}, nc.Schema()); err != nil {
+				// the schema handed to Create may also carry another Compress flag: compression is a
+				// property of the stored collection, the stored setting keeps governing file names
+				sch := nc.Schema()
+				if op.Cfg.Compress {
+					sch.Compress = !e.cfg.Compress
+					e.flag("switch-with-other-compress-flag")
+				}
+				if err := e.db.Create(&Doc{}, sch); err != nil {
 					e.failf("%s: Create switching settings %s -> %s returned %v", where, canon(e.cfg), canon(nc), err)
 				}
 				e.cfg = nc
@@ -549,10 +556,9 @@ func caseC17Settings(t TB, prog *Program) {
 				if err := e.db.Create(&Doc{}, nc.Schema()); !errors.Is(err, want) {
 					e.failf("%s: Create with an incompatible schema returned %v, want %v", where, err, want)
 				}
-				if e.cfg.Async == nil {
-					if d := sameTree(before, treeHash(e.root)); d != "" {
-						e.failf("%s: refused Create changed the directory: %s", where, d)
-					}
+				// (the virtual clock is parked: nothing else can touch the directory)
+				if d := sameTree(before, treeHash(e.root)); d != "" {
+					e.failf("%s: refused Create changed the directory: %s", where, d)
 				}
 				e.flag("switch-refused")
 			}
@@ -627,7 +633,7 @@ func TestC17(t *testing.T) {
 			for i := range prog.Ops {
 				op := &prog.Ops[i]
 				if op.Op == "switch" {
-					c := Config{Cache: g.pct("sc") < 50}
+					c := Config{Cache: g.pct("sc") < 50, Compress: g.pct("scomp") < 25}
 					if g.pct("sa") < 50 {
 						c.Async = &AsyncCfg{Threshold: 1 + g.uni(8, "st"), TimeoutMs: 100 * (1 + g.uni(10, "sto"))}
 					}
